@@ -322,7 +322,9 @@ def gen_config(rng, target):
         cfg["sort_by"] = rng.choice(["tschuprowt", "cramerv"])
     # user-chosen markers for missing / default values (`**kwargs` of every class), 15% of the configurations
     if rng.random() < 0.15:
-        cfg["markers"] = rng.choice([{"str_nan": "MISSING"}, {"str_default": "RARE"}, {"str_nan": "MISSING", "str_default": "RARE"}])
+        cfg["markers"] = rng.choice([{"str_nan": "MISSING"}, {"str_default": "RARE"}, {"str_nan": "MISSING", "str_default": "RARE"},
+                                     # a marker longer than any interval label (fixed-width string arrays would cut it)
+                                     {"str_nan": "MISSING_VALUE_MARKER_LONGER_THAN_ANY_INTERVAL_LABEL_0123456789"}])
     return cfg
 
 
